@@ -108,6 +108,15 @@ class Stream(pydyf.Stream):
             LOGGER.warn('Unsupported color space %s, use sRGB instead', color.space)
             self.set_color_rgb(*channels, stroke)
 
+    def set_color_special(self, name, stroke=False, *operands):
+        if name:
+            # A pattern replaces the current color
+            if stroke:
+                self._current_color_stroke = None
+            else:
+                self._current_color = None
+        super().set_color_special(name, stroke, *operands)
+
     def set_font_size(self, font, size):
         if (font, size) == self._current_font:
             return
